@@ -173,7 +173,7 @@ TEXT["C01"] = {
           "The proof chain, all machine-checked: Miller doubling/addition steps (REGENERATED from pairing.cpp) = tangent/chord/vertical lines times explicit monomial units, for all inputs incl. Z=0, Y=0, T=Q (Proofs/MillerSteps); loop refinement with the accumulated unit (MillerRefine); "
           "final_exponentiation (regenerated chain) = x^(3(q^12-1)/r) for every x incl. 0, exponent COMPUTED from the chain and compared by the kernel, kills the units, turns conjugation into inversion (FinalExp, PairingRefine); the tower over Fq is a tower of fields with Frobenius = x^(q^k) (FqTower, q proved prime); "
           "the Spec point law is Mathlib's elliptic-curve group, hence no exceptional step occurs for Q of order r because 2^65 < r (CurveGroup, OrderR).  The model's loop skeleton is tied to the real miller_loop/pairing exactly by the judge (raw Miller values, coefficients, final exponentiation, pairing values, all back ends).",
- "note": "Named hypothesis H-bilinear for the 'consequently' sentences: bilinearity/non-degeneracy of the textbook optimal-ate FUNCTION is classical (Vercauteren 2010) but not provable with the libraries present; C01.textbook_bilinear derives e(aP,bQ)=e(P,Q)^(ab) from it, and since implementation = textbook it transfers verbatim; it is also sampled against the Spec with boundary scalars.  "
+ "note": "Named hypothesis H-bilinear for the 'consequently' sentences: bilinearity/non-degeneracy of the textbook optimal-ate FUNCTION is classical (Vercauteren 2010) but not provable with the libraries present; C01.textbook_bilinear derives e(aP,bQ)=e(P,Q)^(ab) from it, C01.textbook_nondegenerate derives 'e(P,Q)=1 iff P or Q is the identity' on G1 x G2 from it and the proved order-r fact of generator_pairing, and since implementation = textbook both transfer verbatim (C01.pairing_on_spans); it is also sampled against the Spec with boundary scalars.  "
          "Trusted: hand-written loop skeleton (tied by running both), cxx2lean translator, Lean kernel incl. its GMP arithmetic for the closed facts.",
  "technique": "Lean 4 proof (refinement of the regenerated Miller steps and final-exponentiation chain to the textbook definition; field and group theory from Mathlib; kernel-evaluated closed facts) + differential correspondence against the textbook Spec",
 }
